@@ -692,6 +692,9 @@ func searchMain(a map[string]string) {
 	}
 
 	// random structured search until the deadline
+	const tyPoolCap = 25000
+	var tyPool []*Ty
+	histCalls := 0
 	var tys []*Ty
 	for _, nt := range nodeTypes() {
 		for k := 0; k < 8; k++ {
@@ -701,13 +704,24 @@ func searchMain(a map[string]string) {
 	anyT, _ := tyOf("any")
 	bytesT, _ := tyOf("bytes")
 	round := 0
-	for time.Now().Before(deadline) {
+	// memory of this process grows with the number of rounds (every fresh reflect type and type-cache
+	// entry stays for good), so the random phase is bounded in rounds as well as in time
+	maxRounds := 60000
+	if thorough {
+		maxRounds = 100000
+	}
+	for time.Now().Before(deadline) && round < maxRounds {
 		round++
 		var t *Ty
 		if round <= len(tys) {
 			t = tys[round-1]
-		} else {
+		} else if len(tyPool) < tyPoolCap {
 			t = genTy(r, 3)
+			tyPool = append(tyPool, t)
+		} else {
+			// reflect types and rlp's type cache entries are never freed: once tyPoolCap distinct
+			// random types exist, keep drawing from them so the process stays bounded however long it runs
+			t = tyPool[r.Intn(len(tyPool))]
 		}
 		if s.found["hang:byte-array-1"] > 0 && hasByteArray1(t) {
 			continue // would loop forever in-process; already reported through the probe
@@ -757,8 +771,9 @@ func searchMain(a map[string]string) {
 			s.sessionOracle(genApiSession(r))
 			s.encodeSpec(randItem(r, 4, thorough))
 		}
-		if round%64 == 0 {
-			// every call creates fresh reflect types (never collected): keep it sparse
+		if round%64 == 0 && histCalls < 400 {
+			// every call creates fresh reflect types (never collected): sparse and capped
+			histCalls++
 			s.historyOracle(r, genTy(r, 1), r.Pick(0, 1, 2, 4))
 		}
 		if round%64 == 0 {
